@@ -35,6 +35,9 @@ def run(chk):
     # (a 1 MB source takes minutes: the builder scores every sample segment once per 100 bytes read; slow, not hung)
     for n in ([300000, 500000] if thorough else [300000]):
         add(encgen.literals(rng, n, 'text'), n, 4096, 0)
+    # source sizes whose sample (about 1/256 of the source) ends in a segment shorter than one 16-byte k-mer
+    for n in ([524544, 525000, 528383, 1049000] if thorough else [524800]):
+        add(encgen.literals(rng, n, 'text'), n, 4096, 0)
     res = []
     B = 200
     for s0 in range(0, len(lines), B):
